@@ -7,9 +7,9 @@ git checkout -q -- . ; git checkout -q --detach main
 for n in 1 2 3; do
   [ -d out/$n ] || continue
   echo "=== $P change $n"
-  /venv/bin/python out/$n/demo.py > /dev/null 2>&1; c=$?
+  PYTHONPATH=$WT /venv/bin/python out/$n/demo.py > /dev/null 2>&1; c=$?
   git apply out/$n/patch.diff || { echo "patch does not apply at main"; continue; }
-  /venv/bin/python out/$n/demo.py > /dev/null 2>&1; p=$?
+  PYTHONPATH=$WT /venv/bin/python out/$n/demo.py > /dev/null 2>&1; p=$?
   echo "demo clean rc=$c patched rc=$p"
   rm -rf $OUTD
   VERIF_OUT_DIR=$OUTD VERIF_REPO=$WT /verif/check $P 2>&1 | grep -E "VIOLATION|KNOWN|tier=|HARNESS|TIMEOUT" | head -5
